@@ -123,21 +123,18 @@ pub fn run(args: &[Val]) -> Val {
                 // reply-bearing: the server is done with it; the round trip below must not inherit its outcome
                 rec.lock().unwrap().outcome = 0;
             }
+            // the round trip is the harness's own: the recording handler does not log it
+            rec.lock().unwrap().skip_sync = true;
             let sync_ok = fe.get_vring_base(0).is_ok();
-            if sync_ok {
-                let mut r = rec.lock().unwrap();
-                if let Some(pos) = r.calls.iter().rposition(|c| {
-                    matches!(c.as_l(), Some([Val::S(n), Val::N(0)]) if n == "get_vring_base")
-                }) {
-                    r.calls.remove(pos);
-                }
-            } else {
-                // the server has stopped (or is stopping): wait for it
+            if !sync_ok {
+                // the server has stopped (or is stopping): wait for it; if it lives on (the caller's side lost step
+                // with the stream), give it the time to get through the round trip's request before logging resumes
                 let t0 = Instant::now();
                 while !dead.load(Ordering::SeqCst) && t0.elapsed() < Duration::from_millis(1000) {
                     std::thread::sleep(Duration::from_millis(1));
                 }
             }
+            rec.lock().unwrap().skip_sync = false;
         }
         let calls = std::mem::take(&mut rec.lock().unwrap().calls);
         out.push(Val::L(vec![res, Val::L(calls)]));
